@@ -199,6 +199,20 @@ func cmdExport(args []string) int {
 		_ = closeRules(ctx, inst.Rules)
 		// (c) the binary's export, imported into a fresh directory
 		expFile := filepath.Join(base, "export.json")
+		if h%2 == 1 {
+			// the file named for the export exists already and is longer (an export of an instance with more keys,
+			// kept under the same name)
+			var older strings.Builder
+			older.WriteString(`{"metadata":{"interchange_format_version":"5","genesis_validators_root":"` + testGVR + `"},"data":[`)
+			for i := 0; i < 40; i++ {
+				if i > 0 {
+					older.WriteString(",")
+				}
+				fmt.Fprintf(&older, `{"pubkey":"0x%096x","signed_blocks":[{"slot":"%d"}],"signed_attestations":[{"source_epoch":"%d","target_epoch":"%d"}]}`, i+1, 900+i, 800+i, 801+i)
+			}
+			older.WriteString("]}")
+			_ = os.WriteFile(expFile, []byte(older.String()), 0o600)
+		}
 		code, out := bin.run(base, "--export-slashing-protection", "--slashing-protection-file", expFile, "--genesis-validators-root", testGVR)
 		if code != 0 {
 			monFail = append(monFail, fmt.Sprintf("history %d: export exited %d: %s", h, code, out))
